@@ -18,7 +18,7 @@ theorem Op.txLevel_inner (op : Op) (h : op.txLevel = true) : op.inner = true := 
 theorem step_panicked_tx (s : St) (op : Op) (h : op.txLevel = true) : (step s op).panicked = s.panicked := by
   unfold step
   split
-  · split <;> rfl
+  · (repeat' split) <;> rfl
   · split
     · rfl
     · cases op <;> simp only [exec, St.throw, St.done, afterPosted] <;> (repeat' split) <;> first | rfl | (simp [Op.txLevel] at h)
@@ -137,7 +137,7 @@ theorem postPersist_no_panic {nt : Nat} (s : St) (hm : MInv nt s) (hg : GMInv s)
 theorem step_attrFee (s : St) (op : Op) : (step s op).env.attrFee = s.env.attrFee := by
   unfold step
   split
-  · split <;> rfl
+  · (repeat' split) <;> rfl
   · split
     · rfl
     · cases op <;> simp only [exec, St.throw, St.done, afterPosted] <;> (repeat' split) <;> rfl
